@@ -541,3 +541,12 @@ META = {
         "caller's local list (reach marker q_left_stale_by_prepend_entries) -- a latent WF_V violation should it ever be used",
     ],
 }
+
+
+# ---- the default (plain OS thread) execution agent of execution_base/src/this_thread.cpp: suspend / resume / abort monitor contracts,
+# ---- the suspend-resume lemma, thread-local agent bookkeeping: second sub-agent (after seeded change C07-4 was missed) -----------
+exec(open("/verif/specs/C07/agent_spec.py").read())
+UNITS += AGENT_UNITS
+for _k in ("trusted_base", "assumptions", "not_decided"):
+    META[_k] = list(META.get(_k, [])) + list(AGENT_META.get(_k, []))
+STATIC = list(globals().get("STATIC", [])) + list(AGENT_STATIC)
